@@ -73,6 +73,14 @@ CHECKS = {
        '(identity and order of select() from the document and from inner elements), chosen by symbolic index.',
   design_ref='DESIGN.md §4 C01',
   technique='CrossHair symbolic execution of real matcher + z3 regex equivalence of live operator patterns, reference-model oracle, replay'),
+ 'C03': dict(
+  text='Symbolic/differential checking of the real API: limit is an unbounded symbolic integer (all three regimes '
+       'k<1, 1..n, >n decided by the solver); for 512/4012 selector lists (scope, &, custom aliases, random grammar '
+       'members) x 32/102 trees x the document and elements as call target, select is compared with the reference '
+       'filter of descendants and every other entry point with select; module-level functions are compared with '
+       'compile(...).method over every combination of namespaces/flags/custom.',
+  design_ref='DESIGN.md §4 C03',
+  technique='CrossHair symbolic execution of real API + z3 (unbounded limit), reference-model oracle, replay'),
 }
 
 NOT_APPLICABLE = {
